@@ -505,6 +505,54 @@ func concurrentCase(r *vk.Run, thorough bool) error {
 	return nil
 }
 
+
+// ---------------- directed family: scans over references racing with writes of their targets ----------------
+// Setup: plain keys 0..3, key 5 an unbound reference to key 1. Writers then overwrite keys 0 and 1
+// atomically (one Set with two entries) while scanners run full scans: every scan must show key 0, key 1
+// and the entry resolved through the reference as of ONE state (scan.go resolves references on the
+// scan's snapshot). The history goes through the same checker and Coq case as every other one.
+func scanRefsCase(r *vk.Run) error {
+	db, err := nextDB()
+	if err != nil {
+		return err
+	}
+	defer db.Close()
+	g := &gen{rng: r.Rng, mode: "default"}
+	mk := func(c Call) pstep { c.Seek, c.End = -1, -1; return pstep{call: c} }
+	setup := []pstep{
+		mk(Call{Kind: "set", KVs: [][2]uint64{{0, g.val()}, {1, g.val()}, {2, g.val()}, {3, g.val()}}}),
+		mk(Call{Kind: "setref", K: 5, RK: 1}),
+	}
+	ops := runHistory(db, [][]pstep{setup}, r.Rng, "")
+	var base uint64
+	for _, o := range ops {
+		if o.Ret > base {
+			base = o.Ret
+		}
+	}
+	nw, ns := 2, 2
+	progs := make([][]pstep, nw+ns)
+	for i := 0; i < nw; i++ {
+		for k := 0; k < 18; k++ {
+			v := g.val()
+			progs[i] = append(progs[i], mk(Call{Kind: "set", KVs: [][2]uint64{{0, v}, {1, v}}}))
+		}
+	}
+	for i := nw; i < nw+ns; i++ {
+		for k := 0; k < 30; k++ {
+			progs[i] = append(progs[i], mk(Call{Kind: "scan", Desc: r.Rng.Intn(4) == 0}))
+		}
+	}
+	for _, o := range runHistory(db, progs, r.Rng, "") {
+		o.Inv += base
+		o.Ret += base
+		o.G++
+		ops = append(ops, o)
+	}
+	record(r, ops, "concurrent:scan-over-references", map[string]any{"goroutines": nw + ns, "background": ""})
+	return nil
+}
+
 // ---------------- sequential runs ----------------
 
 func sequentialCase(r *vk.Run) error {
@@ -697,6 +745,11 @@ func Gen(r *vk.Run, n int) error {
 	nseq := n / 4
 	for i := 0; i < nseq; i++ {
 		if err := sequentialCase(r); err != nil {
+			return err
+		}
+	}
+	for k := 0; k < 3+n/40; k++ {
+		if err := scanRefsCase(r); err != nil {
 			return err
 		}
 	}
